@@ -347,8 +347,11 @@ def cli_fs_cases(chk, d, good):
 def gen_program_case(chk, i):
     rng = chk.rng("gp", i)
     d = chk.dir("g%d" % (i % 32))
-    k = rng.choice(["c", "cxx", "types"])
-    if k == "c":
+    k = rng.choice(["c", "cxx", "types", "templates"])
+    if k == "templates":
+        from .. import gen_graph
+        text, ext, cargs = gen_graph.generate_nested(rng), "hpp", ["-std=c++14"]
+    elif k == "c":
         text, ext, cargs = gen_funcs.gen_c(rng, rng.randint(5, 40), abis=False)[0], "h", []
     elif k == "cxx":
         text, ext, cargs = gen_funcs.gen_cxx(rng, rng.randint(5, 25)), "hpp", ["-std=c++17"]
